@@ -25,6 +25,9 @@ def strings(maxlen, extra_plain=(b"z", b"\xc3\xa4")):
     return out
 
 
+DEVS = [(1, 3), (8, 0), (136, 300), (188, 256), (4, 255), (259, 70000), (4095, 1048575), (0, 0), (199, 12)]
+
+
 def build_image(names, targets, path):
     kids = []
     for i, nm in enumerate(names):
@@ -41,7 +44,9 @@ def build_image(names, targets, path):
         elif k == 4:
             kids.append(dict(base, kind="sock"))
         else:
-            kids.append(dict(base, kind="chr" if i % 2 else "blk", devno=(i % 200) << 8 | (i % 13)))
+            # device numbers: small ones and the classes of the 12 + 20 bit encoding (minor 255 / 256 / beyond 16 bit / the largest, major beyond 8 bit / the largest)
+            maj, mnr = DEVS[(i // 6) % len(DEVS)]
+            kids.append(dict(base, kind="chr" if i % 2 else "blk", devno=(maj << 8) | (mnr & 0xff) | ((mnr & ~0xff) << 12)))
     root = {"kind": "dir", "name": b"", "mode": 0o755, "children": kids}
     raw, _ = sqfsimg.encode(root, {"frag": True, "block_size": 4096})
     open(path, "wb").write(raw)
